@@ -43,6 +43,17 @@ CHECKS = {
              "the raw multipliers must satisfy sum((x-ref)*m) = f(x)[t]-f(ref)[t] per pair (1e-6 relative), with no convergence warning.",
         note="Forward passes of a deep copy taken before the call are the reference; a case is non-trivial only if the plain gradient "
              "of the same model violates the relation. GLU/Softmax (not element-wise) are outside the stated domain."),
+    "C05": dict(
+        technique="property-based testing (Hypothesis) over generated architectures: differential against an independent layer-by-layer rescale-rule oracle",
+        category="exploration", design_ref="DESIGN.md §3 C05",
+        text="For random networks of Conv1d/Linear/AvgPool1d/Flatten and the 16 element-wise activations, the raw multipliers, the "
+             "hypothetical and the processed attributions returned by deep_lift_shap are compared (rtol 1e-8, atol 1e-10) with a "
+             "harness-side DeepLIFT that forwards example and reference separately through a pristine copy and walks backwards layer by "
+             "layer (transpose of each linear layer, (out(x)-out(ref))/(in(x)-in(ref)) at activations, ordinary derivative where the "
+             "inputs coincide); references share prefixes / are point mutants so both regimes occur. Affine models are checked against "
+             "the closed form and for independence of every bias.",
+        note="Cases with an activation input delta inside (1e-7, 1e-5) are skipped and counted (switch band); max-pooling is covered by "
+             "the completeness law of C04, not by this oracle."),
     "C08": dict(
         technique="property-based testing (Hypothesis): differential against explicit per-index loops, with an echo func that encodes the (X, args) it received and predict on an exact-integer model",
         category="exploration", design_ref="DESIGN.md §3 C08",
